@@ -1018,6 +1018,55 @@ func ruleGfs4(c *Ctx, r *Reporter) {
 		guardOK = true
 	}
 	r.check(guardOK, "Abort:chunks removed", c.pos(abDel.Pos()), "chunks are deleted whenever s.chunks > 0 (or always)", "the chunk deletion in Abort is not taken exactly when chunks were written")
+	// and no other way to success: every path to a nil return passes the deletion or has found s.chunks to be zero
+	{
+		paths, ends, trunc := enumPaths(abort.Blocks[0], nil, func(b *ssa.BasicBlock) bool {
+			_, isRet := b.Instrs[len(b.Instrs)-1].(*ssa.Return)
+			return isRet
+		}, 4096)
+		blocks := enumPathBlocks
+		bad := ""
+		n := 0
+		if trunc {
+			bad = "too many paths"
+		}
+		for pi, p := range paths {
+			end := ends[pi]
+			if end == nil {
+				continue
+			}
+			ret, ok := end.Instrs[len(end.Instrs)-1].(*ssa.Return)
+			if !ok || ret.Block() == abort.Recover || len(ret.Results) != 1 || !isNilConst(retVal(ret, 0)) {
+				continue
+			}
+			n++
+			passes := false
+			for _, b := range append(append([]*ssa.BasicBlock{}, blocks[pi]...), end) {
+				if b == abDel.Block() {
+					passes = true
+				}
+			}
+			none := false
+			for _, d := range p {
+				bo, ok := d.cond.(*ssa.BinOp)
+				if !ok {
+					continue
+				}
+				px, _ := fieldPath(bo.X)
+				k, okK := constInt(bo.Y)
+				if px != "chunks" || !okK || k != 0 {
+					continue
+				}
+				if (bo.Op == token.GTR && !d.taken) || (bo.Op == token.NEQ && !d.taken) || (bo.Op == token.EQL && d.taken) || (bo.Op == token.LEQ && d.taken) {
+					none = true
+				}
+			}
+			if !passes && !none && bad == "" {
+				bad = fmt.Sprintf("the successful return at %s is reached without deleting the chunks and without s.chunks having been found zero", c.pos(ret.Pos()))
+			}
+		}
+		r.check(bad == "" && n > 0, "Abort:no success without the deletion", apos, fmt.Sprintf("all %d successful paths delete the chunks or found none written", n), bad+": an aborted upload that has flushed chunks (on an untracked bucket no marker exists) leaves them behind")
+	}
 	// success (closed = true; return nil) only after the deletion was attempted and did not fail
 	r.check(len(errChecksOf(errorResult(abDel))) > 0, "Abort:chunk deletion error", c.pos(abDel.Pos()), "the error of DeleteMany is examined", "the error of the chunk deletion is dropped")
 }
